@@ -1189,7 +1189,9 @@ def check_call(
     # Also make sure we found an instantiation for all free vars in the type we're
     # checking against
     if not set.issubset(ty.unsolved_vars, subst.keys()):
-        unsolved = (subst.keys() - ty.unsolved_vars).pop()
+        # Pick deterministically: existential variables hash by display name, so a set
+        # has no stable iteration order across interpreter runs
+        unsolved = min(subst.keys() - ty.unsolved_vars, key=lambda v: v.id)
         err = TypeMismatchError(node, ty, func_ty.output.substitute(subst))
         err.add_sub_diagnostic(
             TypeMismatchError.CantInferParam(None, unsolved.display_name)
